@@ -160,6 +160,7 @@ func runC03(r *R) {
 	}
 
 	// ---- R3
+	c03Delivered(r)
 	r.Rule("C03-R3", "HashCheckingReader: Read yields BadChecksum instead of EOF on mismatch; WriteTo/Close return nil only when the digest equals Check; Close drains the rest through the hash first", 3)
 	if fn := r.NeedFn("C03-R3", "("+kcl+".HashCheckingReader).Read"); fn != nil {
 		// find the EOF test and the sum test
